@@ -363,3 +363,36 @@ Theorem c06_link_target_verbatim_thm :
     payload_of [] (tar_written e) = Ok (File (meta_of (tar_written e)) (LSym tgt) None).
 Proof. exact link_target_verbatim. Qed.
 Print Assumptions c06_link_target_verbatim_thm.
+
+(* c06_layer_bytes_faithful_tree — c06_layer_bytes_faithful with its envelope
+   stated on the TREE: [forest_bytes_okb ev cs cid_of f] (Spec/TarBytesSpec.v) is
+   decided node by node at the node's path — the entry walkFS makes of that node
+   lies in the byte envelope — without reference to the walk.  For every tree
+   such that wfl_forest, whole seconds and forest_bytes_okb hold, the bytes of the
+   layer are read back as members that stand for entries extracting to exactly
+   the tree.  c06_tree_envelope_walk is the bridge: the predicate on the tree
+   implies the predicate on every entry of the walk, for every tree and env. *)
+Theorem c06_tree_envelope_walk : forall ev cs cid_of f, forest_bytes_okb ev cs cid_of f = true ->
+  forallb (entry_okb cs cid_of) (walk ev f) = true.
+Proof. exact forest_bytes_ok_walk. Qed.
+Print Assumptions c06_tree_envelope_walk.
+
+Theorem c06_layer_bytes_faithful_tree : forall ev cs cid_of f,
+  wfl_forest (has_hdr ev) f = true -> whole_seconds_forest f = true -> forest_bytes_okb ev cs cid_of f = true ->
+  exists bs ms, layer_bytes ev cs f = Ok bs /\ read_archive bs = Ok ms /\
+    map (entry_of_member cid_of) ms = map Some (emitted ev f) /\
+    Faithful (users ev) (groups ev) f (emitted ev f).
+Proof. exact layer_bytes_faithful_tree. Qed.
+Print Assumptions c06_layer_bytes_faithful_tree.
+
+Example c06_layer_bytes_faithful_tree_example :
+  let cid_of := fun b : bytes => if is_nil b then 0%N else 9%N in
+  let m := {| m_mode := 493; m_uid := 2097152; m_gid := 0; m_mtime := 1700000000; m_mnsec := 0; m_xattrs := [("user.k", "v")]%string |} in
+  let f := [("usr"%string, Dir m [("bin"%string, Dir m [("a"%string, File m (LReg 9 2) None); ("l"%string, File m0 (LSym "a/../a") None);
+                                                         ("z"%string, File m (LReg 9 2) (Some ["usr"; "bin"; "a"]%string))])])] in
+  wfl_forest (has_hdr env_allhdr) f = true /\ whole_seconds_forest f = true /\
+  forest_bytes_okb env_allhdr [(9%N, lit "hi")] cid_of f = true /\
+  (* … and the predicate does reject: a NUL in a name, a device number of 8^7 *)
+  forest_bytes_okb env_allhdr [] cid_of [(String Ascii.zero "x", File m0 (LSym "t") None)] = false /\
+  forest_bytes_okb env_allhdr [] cid_of [("d"%string, File m0 (LChr 1 2097152) None)] = false.
+Proof. vm_compute. repeat split; reflexivity. Qed.
